@@ -163,7 +163,8 @@ def rule_C(run, prog):
     run.obligation(rid, "PopulationPropagator.get_PropagationMatrix", e is not None, key="identity-start",
                    message="propagation matrix must start from the identity (after the start offset): %s"
                    % (pos if e is None else "ok"), loc=f.loc())
-    e = e or env0
+    if e is None:
+        return
     e2, pos = pat.seq(tx, ["$KD, $SS = numpy.linalg.eig(self.KK)", "$S1 = numpy.linalg.inv($SS)"], e)
     run.obligation(rid, "PopulationPropagator.get_PropagationMatrix", e2 is not None, key="spectral",
                    message="the exponential must be built from eig(K) and the inverse of its eigenvector matrix",
@@ -272,7 +273,21 @@ def rule_D(run, prog):
         def __getattr__(self, name):
             return getattr(self.run, name)
     c02.rule_E(Proxy(run), prog, [f])
-    st = [norm(s) for s in f.node.body]
-    ok = "pops = numpy.zeros((Nt, pini.shape[0]))" in st
-    run.obligation("C17-D", "PopulationPropagator._propagate_short_exp", ok, key="fresh-result",
-                   message="the result array must be freshly allocated per call", loc=f.loc())
+    # the result is a fresh floating-point array: its dtype must not be taken from the input
+    # (integer initial populations would truncate every stored step)
+    rets = [n for n in f.node.body if isinstance(n, ast.Return) and isinstance(n.value, ast.Name)]
+    ok = len(rets) == 1
+    detail = None
+    if ok:
+        res = rets[0].value.id
+        allocs = [n for n in f.node.body if isinstance(n, ast.Assign) and norm(n.targets[0]) == res]
+        ok = len(allocs) == 1 and isinstance(allocs[0].value, ast.Call) and call_name(allocs[0].value) == "zeros"
+        if ok:
+            c = allocs[0].value
+            dt = [k.value for k in c.keywords if k.arg == "dtype"] + list(c.args[1:2])
+            detail = norm(dt[0]) if dt else "(default float64)"
+            ok = (not dt) or detail in ("float", "numpy.float64", "REAL", "qr.REAL", "numpy.double", "'float64'")
+    run.obligation("C17-D", "PopulationPropagator._propagate_short_exp", ok, key="fresh-float-result",
+                   message="the result array must be freshly allocated per call as a floating-point array, "
+                           "independent of the dtype of the initial populations (found dtype %s)" % detail, loc=f.loc(),
+                   sample={"result_dtype": detail})
